@@ -2207,8 +2207,9 @@ chld_cb(EV_P_ ev_child *c, int UNUSED(revents))
 	c->rpid = c->pid = 0;
 	t->nsim--;
 
-	if (UNLIKELY(t->w.reschedule_cb == NULL)) {
-		/* we promised taskB_cb to kill this guy */
+	if (UNLIKELY(t->w.reschedule_cb == NULL && !t->nsim)) {
+		/* we promised taskB_cb to kill this guy,
+		 * once the last of his children has gone */
 		unsched(EV_A_ &t->w, 0);
 	}
 	free_chld(c);
@@ -2254,9 +2255,10 @@ task_cb(EV_P_ ev_periodic *w, int UNUSED(revents))
 	}
 
 	/* prepare for rescheduling */
-	if (UNLIKELY(w->reschedule_cb == NULL)) {
-		/* the child watcher will reap this task */
-		;
+	if (UNLIKELY(w->reschedule_cb == NULL && !t->nsim)) {
+		/* that was the last occurrence and there's no child
+		 * whose watcher would reap this task */
+		unsched(EV_A_ w, 0);
 	}
 	return;
 }
